@@ -90,4 +90,13 @@ TEXTS = {
                     "tree are recorded with their parameter region; everything else must pass. Search with shrinking, not a proof of validity."),
         level_note=("Trusted: the formula table and rotation code of the harness, Eigen's symmetric eigen-solver (in the harness), std::cyl_bessel_*. d<=3, "
                     "matrices up to 96x96; an invalid model whose negative eigenvalue only appears on larger or differently spaced point sets can be missed.")),
+    "C19": dict(
+        engine="rapidcheck + guarded fault-injection hooks",
+        technique="property-based testing with fault injection: generated calculator calls and prior Db contents; exhaustive enumeration of injection points (every stage, every k) per case through GSTLEARN_VERIF hooks; oracle = bit-exact before/after snapshots of both Dbs",
+        design_ref="DESIGN.md §4, §5 C19",
+        level_text=("Fault enumeration: for each generated call every internal stage boundary, every variable creation and every kriging target is made to fail in "
+                    "turn (plus 26 kinds of natural invalid arguments), and the complete state of both data bases is compared before/after; successes must add "
+                    "exactly the documented variables. Exhaustive over injection points of each explored case, sampling over cases."),
+        level_note=("Trusted: the snapshot comparison of the harness; the hooks in /repo (guard GSTLEARN_VERIF, add-only) only return the failure code of their call "
+                    "site. Failures that cannot be produced at these points (e.g. mid-way through a single allocation) are not explored.")),
 }
